@@ -187,7 +187,7 @@ Definition c10_case (x : list (option Z) * list cstr * list Z) : option (list Z 
   let '(decls, names, qs) := x in
   let vals := build_enum_values decls in
   match base_facts (build_baseinttype (sizes %d %d) vals) with
-  | Some (sz, sg) => Some (vals, (sz, sg), map (fun q => enum_string names vals (wrap sz sg q)) qs)
+  | Some (sz, sg) => Some (vals, (sz, sg), map (enum_cast_string (Z.to_nat sz) sg names vals) qs)
   | None => None           (* CDefError *)
   end.
 Definition c10_eqb1 (a b : list Z * (Z * bool) * list cstr) : bool :=
@@ -307,7 +307,8 @@ MANIFEST = dict(
          "model.EnumType.build_baseinttype returns exactly gcc's underlying type (unsigned int / int / unsigned long / "
          "long) and raises CDefError exactly when none exists; the regenerated value assignment of _build_enum_type is "
          "C11 6.7.2.2p3; the dictionary built by b_new_enum_type from last to first maps a value to the first declared "
-         "name, so ffi.string() is that name or the decimal number; the two (size, signed)->index encodings agree. "
+         "name, so ffi.string() is that name or the decimal number; casting stores the low bytes and reading them back is "
+         "wrap (C10_cast_store_is_wrap), so ffi.string(ffi.cast(e, x)) is as stated for x in range (C10_string_of_cast); the two (size, signed)->index encodings agree. "
          "Random and boundary declarations are compared with gcc (sizeof, signedness, values, strings) in every mode.",
     note="Trusted: Coq kernel; the shape-matching drivers; Spec.v as a description of gcc (checked against gcc on the "
          "sampled declarations only); hand model of the C dictionary code (differential test). Theorems closed under "
